@@ -9,6 +9,24 @@ from ..nf import Rat, C
 from ..source import Unsupported, AnchorError, docstring, params
 from ..xlate import (Interp, Obj, ListV, Elem, SumV, Raised, RankOrder, DictV, expected_params, FuncRef,
                      BoundOpaque)
+
+
+_PlainInterp = Interp
+
+
+class _CharacteristicTemperatures(set):
+    """the characteristic temperatures of the crystal models (theta_E, theta_D) are positive quantities: a validating
+    setter that asks `value > 0` is decided for the rule's symbols of these two parameters"""
+
+    def __contains__(self, a):
+        return set.__contains__(self, a) or (isinstance(a, str) and ('einstein_temperature' in a or
+                                                                      'debye_temperature' in a))
+
+
+def Interp(*args, **kwargs):        # noqa: F811 - every interpreter of this module knows the two positive parameters
+    I = _PlainInterp(*args, **kwargs)
+    I.positive_syms = _CharacteristicTemperatures(I.positive_syms)
+    return I
 from .common import same, show, deriv, is_zero, sub, atoms_of, sig, opaque_obj
 from .rxnfix import set_public, get_public
 
